@@ -123,7 +123,7 @@ def strategy_(draw, tier):
             'subs': [], 'mec': draw(st.sampled_from([None, None, 0, 1, 2])), 'history': False}
   recipe = draw(dags.dag(
       max_nodes=8, min_nodes=2, leaf_profile='any_enum', bts=('Config', 'Config', 'Partial'),
-      kinds=['B', 'B', 'B', 'list', 'tuple', 'dict', 'kdict', 'Bpos', 'AFP', 'set'],
+      kinds=['B', 'B', 'B', 'list', 'tuple', 'dict', 'kdict', 'Bpos', 'AFP', 'set', 'nt'],
       fns=['things:f2', 'things:h1', 'things:Base', 'things:LeafCls'],
       root_kinds=['B'], p_alias=0.8, allow_copyof=False, tags=True))
   r = draw(st.floats(0, 1))
@@ -349,6 +349,9 @@ def known_features(gen, root, has_tags, sub_fixtures):
     out.append(gen + ':shared-argfactory')
   if gen == 'auto_config_codegen' and _tagged_argfactory_arg(root):
     out.append('auto_config_codegen:tagged-argfactory-argument')
+  if any(C.is_namedtuple(v) for _, v in C.walk(root)):
+    # named tuples are emitted as plain tuple displays
+    out.append(gen + ':namedtuple-value')
   if any(isinstance(v, (set, frozenset)) and any(isinstance(e, enum.Enum) for e in v) for _, v in C.walk(root)):
     # enum members inside a set are emitted fully qualified without an import
     out.append(gen + ':enum-in-set')
